@@ -76,6 +76,10 @@ pub struct ProxyObs {
     /// first connection only: (simulated ns, input offset forwarded so far) after every forwarded piece
     pub fwd_log_c2s: Vec<(u64, u64)>,
     pub fwd_log_s2c: Vec<(u64, u64)>,
+    /// when the link was cut (reset injected), per connection
+    pub cut_ns: Vec<u64>,
+    /// connection ids (client side, server side) of every proxied connection that is still being forwarded
+    pub live: Vec<(usize, usize)>,
 }
 
 pub fn proxy_addr() -> SocketAddr {
@@ -229,6 +233,7 @@ where
 /// Run the proxy until aborted. Every accepted connection gets the same pair of scripts.
 pub async fn run_proxy(c2s: DirScript, s2c: DirScript, obs: Arc<Mutex<ProxyObs>>) {
     let listener = TcpListener::bind(proxy_addr()).await.expect("proxy bind");
+    let mut conns = Vec::new();
     loop {
         let Ok((inbound, _)) = listener.accept().await else { return };
         let conn = {
@@ -238,8 +243,12 @@ pub async fn run_proxy(c2s: DirScript, s2c: DirScript, obs: Arc<Mutex<ProxyObs>>
             o.s2c.push(Vec::new());
             o.c2s.len() - 1
         };
-        let (c2s, s2c, obs) = (c2s.clone(), s2c.clone(), obs.clone());
-        tokio::spawn(async move {
+        // a link cut (reset script) is one event: once it has happened, later connections find a healed link
+        let cut_done = !obs.lock().unwrap().cut_ns.is_empty();
+        let is_cut = |s: &DirScript| s.truncate_at.is_some() && s.after_truncate == 2;
+        let (c2s, s2c) = if cut_done && (is_cut(&c2s) || is_cut(&s2c)) { (DirScript::default(), DirScript::default()) } else { (c2s.clone(), s2c.clone()) };
+        let obs = obs.clone();
+        conns.push(crate::nodes::spawn_scoped(async move {
             let outbound = match TcpStream::connect(SocketAddr::new(IpAddr::V4(Ipv4Addr::LOCALHOST), SERVER_PORT)).await {
                 Ok(s) => s,
                 Err(_) => {
@@ -254,14 +263,15 @@ pub async fn run_proxy(c2s: DirScript, s2c: DirScript, obs: Arc<Mutex<ProxyObs>>
                 s.set_caps(1 << 22, 1 << 22);
             }
             let (in_cid, out_cid) = (inbound.conn_id(), outbound.conn_id());
+            obs.lock().unwrap().live.push((in_cid, out_cid));
             let (ir, iw) = tokio::io::split(inbound);
             let (or, ow) = tokio::io::split(outbound);
             if c2s.reflect || s2c.reflect {
                 // reflection: what the client sends comes back to the client (and/or the server's bytes to the server)
                 let (tx_c, mut rx_c) = tokio::sync::mpsc::unbounded_channel::<Vec<u8>>();
                 let (tx_s, mut rx_s) = tokio::sync::mpsc::unbounded_channel::<Vec<u8>>();
-                let a = tokio::spawn(pump(ir, tokio::io::sink(), c2s.clone(), obs.clone(), conn, true, Some(tx_c)));
-                let b = tokio::spawn(pump(or, tokio::io::sink(), s2c.clone(), obs.clone(), conn, false, Some(tx_s)));
+                let _a = crate::nodes::spawn_scoped(pump(ir, tokio::io::sink(), c2s.clone(), obs.clone(), conn, true, Some(tx_c)));
+                let _b = crate::nodes::spawn_scoped(pump(or, tokio::io::sink(), s2c.clone(), obs.clone(), conn, false, Some(tx_s)));
                 let mut iw = iw;
                 let mut ow = ow;
                 loop {
@@ -271,27 +281,29 @@ pub async fn run_proxy(c2s: DirScript, s2c: DirScript, obs: Arc<Mutex<ProxyObs>>
                         else => break,
                     }
                 }
-                a.abort();
-                b.abort();
                 return;
             }
-            let mut a = tokio::spawn(pump(ir, ow, c2s, obs.clone(), conn, true, None));
-            let mut b = tokio::spawn(pump(or, iw, s2c, obs.clone(), conn, false, None));
+            let mut a = crate::nodes::spawn_scoped(pump(ir, ow, c2s, obs.clone(), conn, true, None));
+            let mut b = crate::nodes::spawn_scoped(pump(or, iw, s2c, obs.clone(), conn, false, None));
             let first = tokio::select! {
-                r = &mut a => (r, true),
-                r = &mut b => (r, false),
+                r = &mut a.0 => (r, true),
+                r = &mut b.0 => (r, false),
             };
             if matches!(first.0, Ok(3)) {
-                // link cut: both sides see a reset, whatever was in flight is gone
-                crate::nodes::reset_conn(in_cid);
-                crate::nodes::reset_conn(out_cid);
-                a.abort();
-                b.abort();
+                // link cut: every connection on the link sees a reset, whatever was in flight is gone
+                let mut o = obs.lock().unwrap();
+                if o.cut_ns.is_empty() {
+                    for (a, b) in o.live.clone() {
+                        crate::nodes::reset_conn(a);
+                        crate::nodes::reset_conn(b);
+                    }
+                    o.cut_ns.push(crate::nodes::now_ns());
+                }
             } else if first.1 {
-                let _ = b.await;
+                let _ = (&mut b.0).await;
             } else {
-                let _ = a.await;
+                let _ = (&mut a.0).await;
             }
-        });
+        }));
     }
 }
